@@ -921,6 +921,111 @@ theorem bubble_cycle_none : ∀ f, bubble f [cycA, cycB] = none ∧ bubble f [cy
     · rw [bubble]; simp only [pass_cycle_BA]; rw [if_neg (by decide)]; exact ih.1
 
 
+/-! ### `__sort_models`: what holds when the swap loop stops -/
+
+theorem sweep_perm : ∀ (rest : List Named) (r : List (List Nat)) (cur : Named) (acc : List Named) (ch : Bool),
+    (sweep r cur acc ch rest).1.Perm (acc ++ cur :: rest) := by
+  intro rest
+  induction rest with
+  | nil => intro r cur acc ch; simp [sweep]
+  | cons nxt rest ih =>
+    intro r cur acc ch
+    simp only [sweep]
+    split
+    · have := ih (cur.name :: r) nxt (acc ++ [cur]) ch
+      simpa using this
+    · have := ih r cur (acc ++ [nxt]) true
+      refine this.trans ?_
+      rw [List.append_assoc]
+      exact List.Perm.append_left acc (List.Perm.swap cur nxt rest)
+
+theorem sweep_changed : ∀ (rest : List Named) (r : List (List Nat)) (cur : Named) (acc : List Named),
+    (sweep r cur acc true rest).2 = true := by
+  intro rest
+  induction rest with
+  | nil => intro r cur acc; rfl
+  | cons nxt rest ih =>
+    intro r cur acc
+    simp only [sweep]
+    split
+    · exact ih _ _ _
+    · exact ih _ _ _
+
+/-- a sweep that reports `changed = False` has left the list as it was and found the bases of
+every model but the last among the imported names and the class names before it -/
+theorem sweep_unchanged : ∀ (rest : List Named) (r : List (List Nat)) (cur : Named) (acc : List Named),
+    (sweep r cur acc false rest).2 = false →
+    (sweep r cur acc false rest).1 = acc ++ cur :: rest ∧
+    ∀ p x q, cur :: rest = p ++ x :: q → q ≠ [] →
+      basesResolved ((p.map (·.name)).reverse ++ r) x = true := by
+  intro rest
+  induction rest with
+  | nil =>
+    intro r cur acc _
+    refine ⟨by simp [sweep], ?_⟩
+    intro p x q h hq
+    cases p with
+    | nil => simp at h; exact absurd h.2.symm (Ne.symm hq)
+    | cons a p => simp at h
+  | cons nxt rest ih =>
+    intro r cur acc h
+    simp only [sweep] at h ⊢
+    by_cases hres : basesResolved r cur = true
+    · simp only [hres, if_true] at h ⊢
+      obtain ⟨h1, h2⟩ := ih (cur.name :: r) nxt (acc ++ [cur]) h
+      refine ⟨by rw [h1]; simp, ?_⟩
+      intro p x q hp hq
+      cases p with
+      | nil =>
+        simp only [List.nil_append, List.cons.injEq] at hp
+        obtain ⟨rfl, _⟩ := hp
+        simpa using hres
+      | cons a p =>
+        simp only [List.cons_append, List.cons.injEq] at hp
+        obtain ⟨rfl, hp⟩ := hp
+        have := h2 p x q hp hq
+        simpa [List.append_assoc] using this
+    · simp only [hres] at h
+      have := sweep_changed rest r cur (acc ++ [nxt])
+      simp at h
+      rw [this] at h
+      cases h
+
+theorem swapLoop_spec (imp : List (List Nat)) : ∀ (f : Nat) (l l' : List Named),
+    swapLoop imp f l = some l' →
+    l'.Perm l ∧ ∀ p x q, l' = p ++ x :: q → q ≠ [] →
+      basesResolved ((p.map (·.name)).reverse ++ imp) x = true := by
+  intro f
+  induction f with
+  | zero => intro l l' h; simp [swapLoop] at h
+  | succ f ih =>
+    intro l l' h
+    cases l with
+    | nil =>
+      simp only [swapLoop, Option.some.injEq] at h
+      subst h
+      refine ⟨List.Perm.refl _, ?_⟩
+      intro p x q hp; cases p <;> cases hp
+    | cons x xs =>
+      simp only [swapLoop] at h
+      have hperm := sweep_perm xs imp x [] false
+      cases hsw : sweep imp x [] false xs with
+      | mk l1 ch =>
+        rw [hsw] at h hperm
+        cases ch with
+        | true =>
+          simp only [if_true] at h
+          obtain ⟨g1, g2⟩ := ih _ _ h
+          exact ⟨g1.trans (by simpa using hperm), g2⟩
+        | false =>
+          simp only [Bool.false_eq_true, if_false, Option.some.injEq] at h
+          subst h
+          have hu := sweep_unchanged xs imp x [] (by rw [hsw])
+          rw [hsw] at hu
+          refine ⟨by simpa using hperm, ?_⟩
+          intro p y q hp hq
+          exact hu.2 p y q (by rw [← hp]; simpa using hu.1.symm) hq
+
 /-! ### `__sort_models` on a 2-cycle -/
 
 def nmA : Named := ⟨[65], [[66]]⟩
